@@ -63,6 +63,7 @@ type scen struct {
 	ks      []int  // DoInto capacities: cap-len = len(doc)+k
 	seeds   [][3]int
 	note    string
+	prime   []byte // if set: converted by the same converter right before doc, outcome ignored (history of length 2)
 }
 
 type caseDesc struct {
@@ -77,6 +78,7 @@ type caseDesc struct {
 	Ks      []int  `json:"dointo_extra_capacity,omitempty"`
 	Seeds   string `json:"cache_seeds,omitempty"`
 	Note    string `json:"note,omitempty"`
+	Prime   string `json:"converted_right_before,omitempty"`
 }
 
 func clip(b []byte, n int) string {
@@ -93,7 +95,7 @@ func cliphex(b []byte, n int) string {
 }
 
 func (s *scen) desc() interface{} {
-	d := caseDesc{Family: s.op, Trigger: s.trigger, IDL: s.prog.Source(), Parse: fmt.Sprintf("%+v", s.popts), Options: s.optName, Doc: clip(s.doc, 600), Want: cliphex(s.want, 300), Bad: s.bad, Ks: s.ks, Note: s.note}
+	d := caseDesc{Family: s.op, Trigger: s.trigger, IDL: s.prog.Source(), Parse: fmt.Sprintf("%+v", s.popts), Options: s.optName, Doc: clip(s.doc, 600), Want: cliphex(s.want, 300), Bad: s.bad, Ks: s.ks, Note: s.note, Prime: clip(s.prime, 300)}
 	if len(d.IDL) > 1500 {
 		d.IDL = d.IDL[:1500] + "..."
 	}
@@ -159,6 +161,9 @@ func errClass(err error) string {
 
 func (s *scen) run() core.Result {
 	r := core.Result{Class: "ok", Key: s.op + "|" + s.trigger + "|" + s.prog.Name + "|" + s.optName + "|" + string(s.doc)}
+	if s.prime != nil {
+		r.Key += "|after:" + string(s.prime)
+	}
 	if len(r.Key) > 400 {
 		r.Key = r.Key[:200] + fmt.Sprintf("#%d#", len(s.doc)) + r.Key[len(r.Key)-150:]
 	}
@@ -176,6 +181,9 @@ func (s *scen) run() core.Result {
 	src := append([]byte{}, s.doc...)
 	var out []byte
 	var cerr error
+	if s.prime != nil {
+		core.Catch(func() { cv.Do(ctx, desc, append([]byte{}, s.prime...)) })
+	}
 	pi := core.Catch(func() { out, cerr = cv.Do(ctx, desc, src) })
 	r.Count("conversions", 1)
 	if pi != nil {
